@@ -69,6 +69,15 @@ func gen(tier string) []proto.RTItem {
 			r := req(kind{pr, m, tgt}, 1, 3, 33434, 3)
 			r.UseListenerPort = tgt == "198.18.0.9"
 			items = append(items, proto.RTItem{Scn: r, Class: fmt.Sprintf("RunTraceroute/strings/protocol=%q,method=%q", pr, m)})
+			if ok, _ := representable(&r); !ok {
+				// the same unrepresentable strings when the request consists of end-to-end probes only (a different code path decides the method there)
+				r2 := r
+				r2.Queries, r2.E2e = 0, 2
+				items = append(items, proto.RTItem{Scn: r2, Class: fmt.Sprintf("RunTraceroute/strings/protocol=%q,method=%q/e2e-probes-only", pr, m)})
+				r3 := r2
+				r3.HTTP = true
+				items = append(items, proto.RTItem{Scn: r3, Class: fmt.Sprintf("http/strings/protocol=%q,method=%q/e2e-probes-only", pr, m)})
+			}
 		}
 	}
 	// (D) target literal forms
